@@ -79,18 +79,25 @@ class HostPool(object):
 
         yield from self._condition.acquire()
 
-        while True:
-            if self.ready:
-                connection = self.ready.pop()
-                break
-            elif len(self.busy) < self.max_connections:
-                connection = self._connection_factory()
-                break
-            else:
-                yield from self._condition.wait()
+        try:
+            while True:
+                if self.ready:
+                    connection = self.ready.pop()
+                    break
+                elif len(self.busy) < self.max_connections:
+                    connection = self._connection_factory()
+                    break
+                else:
+                    yield from self._condition.wait()
 
-        self.busy.add(connection)
-        self._condition.release()
+            self.busy.add(connection)
+        except BaseException:
+            # Cancelled while waiting: wait() has re-acquired the lock and
+            # may have consumed a notification meant for another waiter.
+            self._condition.notify()
+            raise
+        finally:
+            self._condition.release()
 
         return connection
 
@@ -197,7 +204,20 @@ class ConnectionPool(object):
 
         _logger.debug('Check out %s', key)
 
-        connection = yield from host_pool.acquire()
+        try:
+            connection = yield from host_pool.acquire()
+        except BaseException:
+            # Cancelled while waiting: stop counting this waiter and do not
+            # leave an unused host pool behind.
+            self._host_pool_waiters[key] -= 1
+
+            if not self._host_pool_waiters[key] and host_pool.empty() \
+                    and not self._host_pools_lock.locked():
+                del self._host_pools[key]
+                del self._host_pool_waiters[key]
+
+            raise
+
         connection.key = key
 
         # TODO: Verify this assert is always true
@@ -205,8 +225,9 @@ class ConnectionPool(object):
         # assert key in self._host_pools
         # assert self._host_pools[key] == host_pool
 
-        with (yield from self._host_pools_lock):
-            self._host_pool_waiters[key] -= 1
+        # No await between taking the connection and un-counting the waiter:
+        # a cancellation here would strand the connection in ``busy``.
+        self._host_pool_waiters[key] -= 1
 
         return connection
 
